@@ -17,22 +17,24 @@ import (
 )
 
 type Verifier struct {
-	repo      string
-	fset      *token.FileSet
-	prog      *ssa.Program
-	pkgs      []*packages.Package
-	allPkgs   map[string]*packages.Package
-	contracts map[string]*Contract // key: pkgpath + "::" + func
-	ifaceC    map[string]*Contract // key: pkgpath + "::" + iface + "." + method
-	clauseFns map[string]*ssa.Function
-	wsCache   map[*ssa.Function]map[string]bool
-	globals   map[*ssa.Global]uint64
-	loopCache map[*ssa.Function][]*loopInfo
-	used      map[*Contract]bool
-	genFiles  map[string]string // overlay path -> content
-	files     map[string]*ast.File
-	srcs      map[string][]byte
-	loadErrs  []string
+	repo           string
+	fset           *token.FileSet
+	prog           *ssa.Program
+	pkgs           []*packages.Package
+	allPkgs        map[string]*packages.Package
+	contracts      map[string]*Contract // key: pkgpath + "::" + func
+	ifaceC         map[string]*Contract // key: pkgpath + "::" + iface + "." + method
+	clauseFns      map[string]*ssa.Function
+	wsCache        map[*ssa.Function]map[string]bool
+	globals        map[*ssa.Global]uint64
+	loopCache      map[*ssa.Function][]*loopInfo
+	used           map[*Contract]bool
+	genFiles       map[string]string // overlay path -> content
+	files          map[string]*ast.File
+	srcs           map[string][]byte
+	loadErrs       []string
+	assumedAt      map[string]bool
+	modularCallees map[*Contract]bool
 }
 
 func goEnv() []string {
@@ -43,7 +45,7 @@ func goEnv() []string {
 func Load(repo string, patterns []string) (*Verifier, error) {
 	v := &Verifier{repo: repo, contracts: map[string]*Contract{}, ifaceC: map[string]*Contract{}, clauseFns: map[string]*ssa.Function{},
 		wsCache: map[*ssa.Function]map[string]bool{}, globals: map[*ssa.Global]uint64{}, loopCache: map[*ssa.Function][]*loopInfo{},
-		used: map[*Contract]bool{}, genFiles: map[string]string{}, files: map[string]*ast.File{}, srcs: map[string][]byte{}}
+		used: map[*Contract]bool{}, assumedAt: map[string]bool{}, genFiles: map[string]string{}, files: map[string]*ast.File{}, srcs: map[string][]byte{}}
 	// phase 1
 	cfg1 := &packages.Config{Mode: packages.LoadSyntax, Dir: repo, BuildFlags: []string{"-tags=verif"}, Env: goEnv()}
 	pk1, err := packages.Load(cfg1, patterns...)
@@ -519,7 +521,57 @@ func (ex *Exec) frameObligations(fr *Frame, r retInfo, targets []modTarget, c *C
 	}
 }
 
-// a frame is checked for functions that some other contract calls modularly, or that declare modifies
+// a frame is checked for functions that declare modifies, or that some function under
+// contract calls through their contract (callers assume that only the modifies targets change)
 func (v *Verifier) needsFrame(c *Contract) bool {
-	return !c.Inline
+	if c.Inline {
+		return false
+	}
+	if len(c.Modifies) > 0 {
+		return true
+	}
+	if v.modularCallees == nil {
+		v.modularCallees = map[*Contract]bool{}
+		seen := map[*ssa.Function]bool{}
+		var walk func(fn *ssa.Function)
+		walk = func(fn *ssa.Function) {
+			if fn == nil || seen[fn] {
+				return
+			}
+			seen[fn] = true
+			for _, b := range fn.Blocks {
+				for _, in := range b.Instrs {
+					ci, ok := in.(ssa.CallInstruction)
+					if !ok {
+						continue
+					}
+					g := ci.Common().StaticCallee()
+					if g == nil {
+						if mc, ok := ci.Common().Value.(*ssa.MakeClosure); ok {
+							g = mc.Fn.(*ssa.Function)
+						} else {
+							continue
+						}
+					}
+					if gc := v.contractFor(g); gc != nil && !gc.Inline && !gc.Abstract {
+						v.modularCallees[gc] = true
+						continue
+					}
+					if len(g.Blocks) > 0 && g.Pkg != nil && strings.HasPrefix(g.Pkg.Pkg.Path(), "github.com/free5gc/chf") {
+						walk(g) // executed in place
+					}
+				}
+			}
+			for _, a := range fn.AnonFuncs {
+				walk(a)
+			}
+		}
+		for _, oc := range v.contracts {
+			if oc.Abstract {
+				continue
+			}
+			walk(v.findFunction(oc.PkgPath, oc.Func))
+		}
+	}
+	return v.modularCallees[c]
 }
